@@ -16,6 +16,8 @@ CONSTANTS MaxW,        \* weight bound
           LayoutSel,   \* indices of the layouts applied to every complete derivation
           Focus,       \* TRUE = the initial states are the complete derivations of ArithFocus (arithmetic in every
                        \*        position that takes it); with MaxW = 0 only Layout and Mutate act on them
+          SemNames,    \* with Sem: TRUE = the name domain of the listing rule (namespaced constructors / functions /
+                       \*           type names, short names equal to the primitive wrappers int long float double string)
           Sem          \* TRUE = only schemas the compiler accepts after the prelude (canonical listing)
 
 VARIABLE st
@@ -27,7 +29,7 @@ Punct == Punct1Toks
 NoCombP == [mods |-> <<>>, ns |-> "", nm |-> "", tag |-> "", ta |-> <<>>, bi |-> FALSE, fs |-> <<>>, fn |-> FALSE,
             dns |-> "", dnm |-> "", da |-> <<>>, res |-> <<>>]
 (* pools of the derivation; the weight of a choice is the number of the sub-pool *)
-LowerNamesMC == {"a", "b", "b1", "int", "long", "string", "vector", "tuple", "pair", "v", "n", "x", "y", "z", "t", "k"}
+LowerNamesMC == {"a", "b", "b1", "c", "int", "long", "float", "double", "string", "vector", "tuple", "pair", "v", "n", "x", "y", "z", "t", "k"}
 
 TyAtoms(w) == CASE w = 0 -> {Atom("", "int")}
                 [] w = 1 -> {Atom("", "Int"), Atom("ns", "v"), Atom("ns", "V"), Hash}
@@ -143,6 +145,20 @@ SemFields(w, nats, n) ==      \* nats: names of earlier #-fields; n: index of th
   \cup (IF w >= 3 THEN {FldRep(nm, <<>>, FALSE, "ar", "", <<N(3)>>, <<Fld("", <<>>, FALSE, t)>>) : t \in SemTy(w - 3)} ELSE {})
   \cup (IF w >= 4 THEN {FldRep(nm, <<>>, FALSE, "ar", "", <<N(1), N(2)>>, <<Fld("", <<>>, FALSE, t)>>) : t \in SemTy(w - 4)} ELSE {})
 
+(* names of derived combinators when Sem = TRUE: a / b by position; with SemNames also the names that matter for *)
+(* the rule "the wrappers int long float double string are listed by the fixed header, not again": namespaced   *)
+(* names and namespaced names whose SHORT name is a wrapper name (an un-namespaced wrapper name other than the   *)
+(* prelude's own declarations is refused by the compiler: "type float already exists")                           *)
+UsedNames(done) == {<<done[i].ns, done[i].nm>> : i \in 1..Len(done)}
+SemConsNames(w, done) ==
+  (CASE w = 0 -> {<<"", IF done = <<>> THEN "a" ELSE "b">>}
+     [] w = 1 -> IF SemNames THEN {<<"ns", "c">>, <<"ns", "string">>, <<"ns", "int">>, <<"ns", "long">>, <<"ns", "double">>, <<"ns", "float">>} ELSE {}
+     [] OTHER -> {}) \ UsedNames(done)
+(* the compiler wants the namespace of a constructor to be the namespace of its type *)
+SemDeclNames(w, done, cur) ==
+  IF cur.ns # "" THEN (IF w = 0 THEN {<<cur.ns, "A">>, <<cur.ns, "String">>} ELSE {})
+  ELSE IF w = 0 THEN {<<"", IF done = <<>> THEN "A" ELSE "B">>} ELSE {}
+
 (* the fixed prelude that precedes a derived schema when Sem = TRUE *)
 Prelude == <<
   [NoCombP EXCEPT !.nm = "int", !.tag = "a8509bda", !.bi = TRUE, !.dnm = "Int"],
@@ -211,11 +227,10 @@ DStart == /\ st.ph \in {"start", "idle"} /\ Len(st.done) < MaxCombs
                LET extra == IF st.done = <<>> THEN 0 ELSE 1
                    cost == wn + wt + wm + (IF fn THEN 1 ELSE 0) + extra IN
                /\ cost <= Left
-               /\ (Sem => wn = 0 /\ wt <= 1)
-               /\ \E nm \in ConsNames(wn), tag \in Tags(wt), mods \in ModSeqs(wm) :
+               /\ (Sem => wt <= 1)
+               /\ \E nm \in (IF Sem THEN SemConsNames(wn, st.done) ELSE ConsNames(wn)), tag \in Tags(wt), mods \in ModSeqs(wm) :
                     st' = [st EXCEPT !.ph = "head", !.w = @ + cost,
-                             !.cur = [NoComb EXCEPT !.ns = nm[1],
-                                                    !.nm = IF Sem THEN (IF st.done = <<>> THEN "a" ELSE "b") ELSE nm[2],
+                             !.cur = [NoComb EXCEPT !.ns = nm[1], !.nm = nm[2],
                                                     !.tag = tag, !.mods = mods, !.fn = fn]]
 DTArg == /\ st.ph = "head" /\ Len(st.cur.ta) < 2 /\ ~Sem
          /\ \E w \in 1..2 : /\ w <= Left
@@ -228,12 +243,12 @@ DField == /\ st.ph \in {"head", "fields"} /\ Len(st.cur.fs) < 3
                                  /\ \E f \in (IF Sem THEN SemFields(w, NatNames(st.cur), Len(st.cur.fs) + 1) ELSE FieldsW[w]) :
                                       st' = [st EXCEPT !.ph = "fields", !.w = @ + w, !.cur.fs = Append(@, f)]
 DFinishType == /\ st.ph \in {"head", "fields", "body"} /\ ~st.cur.fn
-               /\ \E wd \in 0..1 : /\ wd <= Left /\ (Sem => wd = 0)
-                                   /\ \E dn \in DeclNames(wd), withArgs \in BOOLEAN :
+               /\ \E wd \in 0..1 : /\ wd <= Left
+                                   /\ \E dn \in (IF Sem THEN SemDeclNames(wd, st.done, st.cur) ELSE DeclNames(wd)), withArgs \in BOOLEAN :
                                         /\ (withArgs => st.cur.ta # <<>>)
                                         /\ (Sem => ~withArgs)
                                         /\ LET c == [st.cur EXCEPT !.dns = dn[1],
-                                                                   !.dnm = IF Sem THEN (IF st.done = <<>> THEN "A" ELSE "B") ELSE dn[2],
+                                                                   !.dnm = dn[2],
                                                                    !.da = IF withArgs THEN [i \in 1..Len(st.cur.ta) |-> st.cur.ta[i].n] ELSE <<>>]
                                            IN st' = [st EXCEPT !.ph = "idle", !.w = @ + wd, !.done = Append(@, c), !.cur = NoComb]
 DFinishFn == /\ st.ph \in {"head", "fields"} /\ st.cur.fn
